@@ -12,6 +12,7 @@ THEOREMS = [
     "c12_latest_resolves", "c12_latest_text", "c12_latest_always_replaced", "c12_latest_resolves_nosub_partial", "c12_all_under_rundir",
     "c12_artifacts_survive_iff", "c12_rundir_erased_iff", "c12_upload_implies_clear",
     "c12_rundir_erased_general", "c12_foul_flag_is_exit_status", "c12_range_contains",
+    "c12_listed_tree_is_what_survives",
 ]
 HEADER = ("From Shk Require Import Base.Prelude Model.Dirs Corr.C12.\n"
           "From Coq Require Import Strings.String.\nOpen Scope Z_scope.\n")
@@ -23,6 +24,8 @@ QUERIES = [
     ("Olink", "bad_indices link_oracle_bad link_cases"),
     ("Mrange", "bad_indices range_model_bad range_cases"),
     ("Orange", "bad_indices range_oracle_bad range_cases"),
+    ("Mtree", "bad_indices tree_model_bad tree_cases"),
+    ("Otree", "bad_indices tree_oracle_bad tree_cases"),
     ("Mplay", "bad_indices play_model_bad play_cases"),
     ("Oplay", "bad_indices play_oracle_bad play_cases"),
     ("OplayCode", "map play_oracle_code (filter play_oracle_bad play_cases)"),
@@ -38,6 +41,7 @@ CODES = {
     7: ("time-range-misses-a-recorded-time", "a time recorded in csv/* lies outside [MinTime, MaxTime]"),
     8: ("artifact-tree-names-missing-file", "the artifact tree of result.js names a file that does not exist"),
     9: ("plot-script-names-missing-file", "a plot script names a data file or script that does not exist"),
+    11: ("surviving-file-not-in-artifact-tree", "a file left in the run directory is not named in result.js's artifact tree"),
     10: ("exit-status-vs-foul", "the exit status does not tell whether the play was fouled"),
 }
 
@@ -74,6 +78,7 @@ def run(tier, seed):
         "observed only, by walking the file system after real plays: nothing appears outside <output-dir>/<run id> and <output-dir>/latest (inside a private root holding cwd, HOME and TMPDIR), every path of result.js's artifact tree and every data file / loaded script named in plots/*.gp exists, result.js is `var result = ` followed by exactly one JSON document (it is JavaScript, as report.html needs it)",
         "times: csv files print 4 decimals, so containment in [MinTime, MaxTime] is checked with a tolerance of 0.00005 s; times not written to any csv (mood changes) are only covered by the hook-level range cases",
         "no failure after the play (plot, result files, upload) in the survival / exit-status statements except where the theorem says otherwise; gnuplot is absent here (a warning, not an error); the upload is exercised with a fake scp",
+        "a fifo / socket / device left by an actor is listed in result.js and then removed by removeNonUploadableFiles (c12_listed_tree_with_fifo_refuted; reported as a side finding): the tree theorem and the tree oracle exempt such trees, the plays do not create any",
         "the run id is the wall-clock second: two runs into the same output directory within one second are outside the claim",
     ]
     ok, detail = vlib.proof_stage(res, "C12", THEOREMS)
@@ -100,13 +105,13 @@ def run(tier, seed):
         shutil.rmtree(out, ignore_errors=True)
     rc, cout, q, path = vlib.eval_cases(PID, tier, HEADER, cases_v, QUERIES, timeout=3000)
     vals = {k: vlib.parse_nat_list(v) for k, v in q.items()}
-    n_eval = sum(summary[k] for k in ("clean", "join", "abs", "link", "range", "plays"))
+    n_eval = sum(summary[k] for k in ("clean", "join", "abs", "link", "range", "plays", "tree"))
     res.coverage.update({
         "evaluations": n_eval,
         "distinct_nontrivial": summary["distinct_nontrivial"],
-        "rule": "plays: quick = a greedy 3-way covering array of {-k} x {--clear} x {--disable-plots} x {-q} x {fouled (by an auditor or by a failing action), clean} x {'.', out, a/b/out, absolute (with a blank)} x {repeat section, none} (every triple of factor values occurs; the seed changes the rows), thorough = all 256; plus 4 --upload-url plays with a fake scp, one probing an output directory with a blank, 6 plays (24 thorough) that follow an earlier run into the same output directory one second before (erased by --clear, deleted by hand, or kept) and 2 (8) whose repeat section is never reached because a failing action fouls act 1 (plots on). Fouls are by an auditor, by a failing action in the last (repeated) act, or by one in act 1. Spotlights emit an instant far in the future and (3 of 4) one in the past, so MinTime < 0 < 1 < MaxTime. links: the real prepareDirs for 13 forms of output directory (absolute, '.', relative, nested, './x', 'x/', 'a/../x', '../w2/x', 'a//b', with a blank, ...) x run ids (some without). ranges: lists of 0-8 instants (multiples of 1/1024 s in [-5 s, 12 s]) through the real assemble. paths: generated strings of up to 5 components from {a, b, .., ., '', 'c d', x.y, out, ...}. distinct_nontrivial = distinct plays (by factor values) + link forms + ranges of >= 2 instants.",
+        "rule": "plays: quick = a greedy 3-way covering array of {-k} x {--clear} x {--disable-plots} x {-q} x {fouled (by an auditor or by a failing action), clean} x {'.', out, a/b/out, absolute (with a blank)} x {repeat section, none} (every triple of factor values occurs; the seed changes the rows), thorough = all 256; plus 4 --upload-url plays with a fake scp, one probing an output directory with a blank, 6 plays (24 thorough) that follow an earlier run into the same output directory one second before (erased by --clear, deleted by hand, or kept) and 2 (8) whose repeat section is never reached because a failing action fouls act 1 (plots on). The `mk` action of every play leaves editor temporaries (copy.txt~ from cp -b, notes~, #edit#, #half~) and a directory old~ with a file; besides `every named path exists` the oracle now asks that every file left in the run directory (but index.html / upload.log, written later) is named. trees: 150 (2000) generated directory trees (names a.txt b~ #c# #d~ e# # ~ h~x j#~ ..., directories d~ #g# ..., regular files, symbolic links, fifos in a third of them) through the real collectArtifacts and removeNonUploadableFiles (hook VerifArtifacts). Fouls are by an auditor, by a failing action in the last (repeated) act, or by one in act 1. Spotlights emit an instant far in the future and (3 of 4) one in the past, so MinTime < 0 < 1 < MaxTime. links: the real prepareDirs for 13 forms of output directory (absolute, '.', relative, nested, './x', 'x/', 'a/../x', '../w2/x', 'a//b', with a blank, ...) x run ids (some without). ranges: lists of 0-8 instants (multiples of 1/1024 s in [-5 s, 12 s]) through the real assemble. paths: generated strings of up to 5 components from {a, b, .., ., '', 'c d', x.y, out, ...}. distinct_nontrivial = distinct plays (by factor values) + link forms + ranges of >= 2 instants.",
         "samples": summary["samples"],
-        "distribution": {k: summary[k] for k in ("clean", "join", "abs", "link", "range", "plays", "play_distribution", "link_hook_errors")},
+        "distribution": {k: summary[k] for k in ("clean", "join", "abs", "link", "range", "plays", "tree", "trees_with_a_fifo", "play_distribution", "link_hook_errors")},
         "traces_validated_against_impl": summary["plays"],
         "cases_file": path,
     })
@@ -131,6 +136,8 @@ def run(tier, seed):
             detail_txt = ": " + ", ".join(p["MissingArtifacts"][:4])
         elif code == 9:
             detail_txt = ": " + ", ".join(p["MissingPlotFiles"][:4])
+        elif code == 11:
+            detail_txt = ": " + ", ".join(p["UnnamedSurvivors"][:4])
         elif code == 7:
             detail_txt = ": MinTime %d ns, MaxTime %d ns, times %s" % (p["MinNs"], p["MaxNs"], p["TimesNs"])
         res.violation(sig, "shakespeare %s (%s play, exit %d): %s%s" % (
@@ -149,12 +156,20 @@ def run(tier, seed):
             ("resolves to " + c["Resolved"]) if c["Resolves"] else "is dangling"),
             {"kind": "failing-input", "input": c, "expected": c["RunDir"],
              "replay": "cd %s; cmd.VerifScriptsFull('', %r, %r); readlink / stat <output-dir>/latest" % (c["Cwd"], c["DataDir"], c["Sub"])})
+    for idx in vals["Otree"][:1]:
+        c = cases["tree"][idx]
+        gone = [x for x in c["Listed"] if x not in (c["Survived"] or [])]
+        unnamed = [x for x in (c["Survived"] or []) if x not in (c["Listed"] or [])]
+        res.violation("artifact-tree-vs-surviving-files",
+                      "collectArtifacts lists %s which removeNonUploadableFiles then deletes; it leaves %s unlisted" % (gone, unnamed),
+                      {"kind": "failing-input", "input": c,
+                       "replay": "build the tree in an empty directory d (reg = file, sym = symlink, dir = directory); cmd.VerifArtifacts(d)"})
     for idx in vals["Orange"][:1]:
         c = cases["range"][idx]
         res.violation("time-range-misses-an-instant", "assemble gives [%d, %d]/1024 s for instants %s/1024 s" % (c["Min"], c["Max"], c["Ts"]),
                       {"kind": "failing-input", "input": c, "replay": "cmd.VerifAssembleRange([t/1024 for t in Ts])"})
     if not res.violations and not res.known:
-        for name, key in (("Mplay", "play"), ("Mlink", "link"), ("Mrange", "range"), ("Mclean", "clean"), ("Mjoin", "join"), ("Mabs", "abs")):
+        for name, key in (("Mplay", "play"), ("Mtree", "tree"), ("Mlink", "link"), ("Mrange", "range"), ("Mclean", "clean"), ("Mjoin", "join"), ("Mabs", "abs")):
             if vals[name]:
                 c = cases[key][vals[name][0]]
                 res.violation(None, "model and implementation disagree on a %s case (property oracle passes): correspondence %s broken" % (key, name),
